@@ -155,6 +155,14 @@ pub enum Op {
         ask_after_ms: u64,
         #[serde(default)]
         only: Option<Vec<usize>>,
+        /// the second open fails with an I/O error at this hook point (it leaves behind whatever a
+        /// run interrupted there leaves)
+        #[serde(default, skip_serializing_if = "Option::is_none")]
+        fail_point: Option<String>,
+        /// afterwards this many seconds pass on every clock the program can read (the watched handle
+        /// is left alone that long), and the watched handle is asked once more
+        #[serde(default, skip_serializing_if = "is_zero64")]
+        advance_s: u64,
     },
     /// Drop the database in `slot`.
     Drop { slot: usize },
@@ -181,6 +189,10 @@ pub struct Session {
     /// tokenizer configuration: what another release leaves behind, for real)
     #[serde(default, skip_serializing_if = "std::ops::Not::not")]
     pub ver: bool,
+    /// extra environment variables of this process start (RUST_LOG and the like; "<unset>" removes one).
+    /// With RUST_LOG set the simulated process installs the same logger as the real program.
+    #[serde(default, skip_serializing_if = "Vec::is_empty")]
+    pub env: Vec<(String, String)>,
     /// seed of everything this process start draws with getrandom(2) (hash-map seeds of the standard
     /// library, UUIDs); 0 = derived from the history's seed and the step number
     #[serde(default, skip_serializing_if = "is_zero64")]
